@@ -68,7 +68,7 @@ def unmodelled_guard_write(body):
     for m in re.finditer(r'match\s+' + GUARD_SOURCES + r'\s*\((?:[^()]|\([^()]*\))*\)\s*\{\s*Ok\(\s*(?:mut\s+)?(\w+)\s*\)', code):
         names.add(m.group(1))
     for n in names:
-        for pat in (r'\b' + re.escape(n) + r'\s*\.\s*' + MUTATORS + r'\s*\(', r'\*\s*' + re.escape(n) + r'\s*=[^=]', r'&mut\s*\*+\s*' + re.escape(n) + r'\b', r'\b' + re.escape(n) + r'\s*\.\s*deref_mut\s*\('):
+        for pat in (r'\b' + re.escape(n) + r'\s*\.\s*' + MUTATORS + r'\s*\(', r'\*\s*' + re.escape(n) + r'\s*=[^=]', r'(?<!pool_guard_take\()(?<!cs_drop_sender\()(?<!cs_take_handle\()(?<!guard_clear_subs\()(?<!sel_store\()(?<!retain_not_target\()&mut\s*\**\s*' + re.escape(n) + r'\b', r'\b' + re.escape(n) + r'\s*\.\s*deref_mut\s*\('):
             mm = re.search(pat, code)
             if mm:
                 return ' '.join(mm.group(0).split())[:80]
